@@ -31,6 +31,9 @@ func genC10(g *gen, tier string) *Scenario {
 		sc.Stubs.SecSlowPct = pick(g, 0, 30, 100)
 		sc.Stubs.SecSlowDur = int64(g.rng(1, 2000)) * ms
 		sc.Stubs.SecSetErrPct = pick(g, 0, 0, 25)
+		if sc.Stubs.SecSetErrPct > 0 && g.pct(50) {
+			sc.Cache.Reenter = true // the error handler uses the cache
+		}
 		sc.Stubs.SecGetErrPct = pick(g, 0, 0, 25)
 		sc.Stubs.SecDelErrPct = pick(g, 0, 0, 25)
 	}
